@@ -334,7 +334,7 @@ func (in *Interp) conv(tDst, tSrc types.Type, x Value) Value {
 				return p
 			}
 			if b, ok := utDst.(*types.Basic); ok && b.Kind() == types.Uintptr {
-				in.abort("unsupported: unsafe.Pointer to uintptr")
+				in.abort("unsupported: unsafe.Pointer to uintptr in %s", in.whereAmI())
 			}
 			return x
 		}
